@@ -560,6 +560,59 @@ struct Minimiser {
         n.yo.erase(n.yo.begin() + p);
         if (fails(cand)) best = cand;
       }
+    // numeric shrinking towards small values (bounded)
+    auto shrinkNum = [&](std::function<long long *(Plan &)> get) {
+      for (int round = 0; round < 6 && runs < budget; ++round) {
+        long long *pv = get(best);
+        if (!pv) return;
+        long long v = *pv;
+        if (v == 0) return;
+        bool improved = false;
+        for (long long cand : {0LL, v / 2, v > 0 ? v - 1 : v + 1}) {
+          if (cand == v) continue;
+          Plan c = best;
+          *get(c) = cand;
+          if (fails(c)) {
+            best = c;
+            improved = true;
+            break;
+          }
+        }
+        if (!improved) return;
+      }
+    };
+    if (best.circuit.cells.size() <= 24) {
+      for (size_t i = 0; i < best.circuit.cells.size() && runs < budget; ++i) {
+        // ints are shrunk through a long long proxy
+        for (int f = 0; f < 4; ++f) {
+          for (int round = 0; round < 5 && runs < budget; ++round) {
+            CellSpec &k = best.circuit.cells[i];
+            int *fld = f == 0 ? &k.x : f == 1 ? &k.y : f == 2 ? &k.w : &k.h;
+            int v = *fld;
+            int lowest = f >= 2 ? 1 : 0;
+            if (v == lowest) break;
+            bool improved = false;
+            for (int cand : {lowest, v / 2, v > 0 ? v - 1 : v + 1}) {
+              if (cand == v || (f >= 2 && cand < 1 && v >= 1)) continue;
+              Plan c = best;
+              CellSpec &kc = c.circuit.cells[i];
+              (f == 0 ? kc.x : f == 1 ? kc.y : f == 2 ? kc.w : kc.h) = cand;
+              if (fails(c)) {
+                best = c;
+                improved = true;
+                break;
+              }
+            }
+            if (!improved) break;
+          }
+        }
+      }
+    }
+    for (size_t i = 0; i < best.gops.size() && runs < budget; ++i)
+      for (size_t a = 0; a < best.gops[i].a.size(); ++a)
+        shrinkNum([i, a](Plan &p) -> long long * { return (i < p.gops.size() && a < p.gops[i].a.size()) ? &p.gops[i].a[a] : nullptr; });
+    for (size_t i = 0; i < best.head.size() && runs < budget; ++i)
+      shrinkNum([i](Plan &p) -> long long * { return i < p.head.size() ? &p.head[i] : nullptr; });
     return best;
   }
 };
